@@ -128,6 +128,10 @@ def run(ctx):
     for e in entries:
         if e.cls == "raising":
             plan.extend(["@" + e.name] + ["@" + s_ for s_ in sentinels])
+    # "... whether it runs first or after other calls" includes after ITSELF: every (fast) entry once more at the end of the session
+    for e in entries:
+        if e.cls != "raising" and not e.slow and not e.name.startswith("sentinel/"):
+            plan.append("@" + e.name)
     cm_budget = 14 if q else 80
     env0 = initial.get("_env")
     for item in plan:
